@@ -356,6 +356,143 @@ fn run_single_report_algebra(cx: &mut CaseCx, case: &Value) {
   cx.sample(json!({"t": t, "candidates": cands.len(), "replica_validated": replica_ok}));
 }
 
+
+/// The client API used in other SHAPES than "fresh zeroed buffer": the randomness buffer reused across calls,
+/// pre-filled, or the generator reused. A below-threshold report must then (a) still be the report a fresh
+/// client produces, and (b) never open under a key that depends on public values only (what the report would
+/// be keyed with if the randomness degenerated to zeros / 0xff / the epoch).
+fn run_client_usage(cx: &mut CaseCx, case: &Value) {
+  use sta_rs::{MessageGenerator, SingleMeasurement};
+  let t = case["t"].as_u64().unwrap() as u32;
+  let meas = meas_alphabet(true)[case["m"].as_u64().unwrap() as usize].clone();
+  let epoch = epoch_alphabet(true)[case["e"].as_u64().unwrap() as usize].clone();
+  let aux = Some(prbytes(0xC11E, 40));
+  let pl = payload(&meas, &aux);
+  let mg = MessageGenerator::new(SingleMeasurement::new(&meas), t, &epoch);
+  let fresh = local_randomness(&meas, &epoch, t);
+  // keys an outsider can compute: the report keyed as if the client randomness were a public constant
+  let mut public_keys: Vec<(String, Vec<u8>)> = vec![];
+  let mut ep32 = [0u8; 32];
+  ep32[..epoch.len().min(32)].copy_from_slice(&epoch[..epoch.len().min(32)]);
+  for (name, rnd) in [("all-zero randomness", [0u8; 32]), ("all-0xff randomness", [0xffu8; 32]), ("the epoch as randomness", ep32)] {
+    // the key such a client would hold (share_with... is not usable with a given randomness; the payload key is
+    // what opens a report generated from that randomness, found by recovering it from t such reports)
+    let mut msgs = vec![];
+    for i in 0..t.max(1) {
+      getrandom::verif::set_group(200 + i);
+      if let Ok(m) = gen_report(&meas, &epoch, t, &rnd, &None) {
+        msgs.push(m);
+      }
+    }
+    let shares: Vec<sta_rs::Share> = msgs.iter().map(|m| m.share.clone()).collect();
+    if let Ok(Ok(r0)) = recover_msg(&shares) {
+      let mut k = vec![0u8; 16];
+      sta_rs::derive_ske_key(&r0, &epoch, &mut k);
+      public_keys.push((name.to_string(), k));
+    }
+  }
+  cx.count("public_keys_tried", public_keys.len() as u64);
+  // usage shapes producing "the client's randomness"
+  let mut shapes: Vec<(&str, [u8; 32])> = vec![];
+  let mut b = [0u8; 32];
+  mg.sample_local_randomness(&mut b);
+  shapes.push(("fresh zeroed buffer", b));
+  mg.sample_local_randomness(&mut b);
+  shapes.push(("the same buffer, second call", b));
+  mg.sample_local_randomness(&mut b);
+  shapes.push(("the same buffer, third call", b));
+  let mut c = [0xffu8; 32];
+  mg.sample_local_randomness(&mut c);
+  shapes.push(("buffer pre-filled with 0xff", c));
+  let mut d = local_randomness(b"another measurement", &epoch, t);
+  mg.sample_local_randomness(&mut d);
+  shapes.push(("buffer that held another measurement's randomness", d));
+  for (shape, rnd) in shapes {
+    cx.eval();
+    cx.nontrivial(fnv_str(&format!("{}|{}", case, shape)));
+    if rnd != fresh {
+      cx.viol("C03/client-usage/randomness-differs", format!("sample_local_randomness into {} gives another value than a fresh client's (t={})", shape, t), json!({"usage": shape, "all_zero": rnd == [0u8; 32]}));
+    }
+    getrandom::verif::set_group(1);
+    let msg = match gen_report(&meas, &epoch, t, &rnd, &aux) {
+      Ok(m) => m,
+      Err(e) => {
+        cx.viol("C03/generate-failed", e, json!({"usage": shape}));
+        continue;
+      }
+    };
+    for (name, k) in &public_keys {
+      cx.eval();
+      if msg.ciphertext.decrypt(k, "star_encrypt") == pl {
+        cx.viol("C03/decryptable-with-public-values", format!("a single report (threshold {}) whose client obtained its randomness through '{}' decrypts under the key that follows from {}: the associated data is readable by anyone", t, shape, name), json!({"usage": shape, "public_key_from": name, "t": t}));
+        return;
+      }
+    }
+    cx.count("usage_shapes_sealed", 1);
+  }
+  cx.outcome("usage shapes sealed");
+}
+
+/// pooling across NEIGHBOURING epochs: one report of the same measurement from each of t epochs that a
+/// canonicalisation could merge (each epoch alone stays below threshold): no recovery, no decryption
+fn run_epoch_pooling(cx: &mut CaseCx, case: &Value) {
+  let t = case["t"].as_u64().unwrap() as u32;
+  let bases: Vec<Vec<u8>> = vec![b"epoch".to_vec(), vec![0x80], vec![0xfe], vec![0, 0, 0, 254], vec![0xc3, 0x28], "caf\u{e9} ".as_bytes().to_vec()];
+  let base = bases[case["b"].as_u64().unwrap() as usize % bases.len()].clone();
+  let meas = b"pooled measurement".to_vec();
+  let aux = Some(prbytes(0xE90C, 24));
+  let pl = payload(&meas, &aux);
+  let mut epochs: Vec<(String, Vec<u8>)> = vec![("the base epoch".into(), base.clone())];
+  epochs.extend(super::c04::neighbours(&base));
+  // binary counters: the following values
+  for d in 1..=3u8 {
+    let mut e = base.clone();
+    if let Some(l) = e.last_mut() {
+      *l = l.wrapping_add(d);
+      epochs.push((format!("last byte + {}", d), e));
+    }
+  }
+  let reports: Vec<(String, Vec<u8>, sta_rs::Message)> = epochs
+    .into_iter()
+    .enumerate()
+    .filter_map(|(i, (how, e))| {
+      getrandom::verif::set_group(i as u32 + 1);
+      gen_report(&meas, &e, t, &local_randomness(&meas, &e, t), &aux).ok().map(|m| (how, e, m))
+    })
+    .collect();
+  // every window of t consecutive epochs of the family, and the base with each t-1 others
+  let n = reports.len();
+  let mut pools: Vec<Vec<usize>> = vec![];
+  for i in 0..n.saturating_sub(t as usize - 1) {
+    pools.push((i..i + t as usize).collect());
+  }
+  for i in 1..n.saturating_sub(t as usize - 2) {
+    let mut p = vec![0usize];
+    p.extend(i..i + t as usize - 1);
+    pools.push(p);
+  }
+  for pool in pools {
+    let shares: Vec<sta_rs::Share> = pool.iter().map(|&i| reports[i].2.share.clone()).collect();
+    cx.eval();
+    cx.nontrivial(fnv_str(&format!("{}|{:?}", case, pool)));
+    if let Ok(Ok(r0)) = recover_msg(&shares) {
+      // a recovery across epochs: does it open any of the reports?
+      for &i in &pool {
+        let mut k = vec![0u8; 16];
+        sta_rs::derive_ske_key(&r0, &reports[i].1, &mut k);
+        if reports[i].2.ciphertext.decrypt(&k, "star_encrypt") == pl {
+          cx.viol("C03/pooled-across-epochs", format!("one report per epoch from {} different epochs ({}) - each epoch below its threshold {} - recover together and open the associated data", t, pool.iter().map(|&j| reports[j].0.clone()).collect::<Vec<_>>().join(" | "), t), json!({"t": t, "epochs": pool.iter().map(|&j| hexs(&reports[j].1)).collect::<Vec<_>>()}));
+          return;
+        }
+      }
+      cx.count("cross_epoch_recoveries_that_open_nothing", 1);
+    } else {
+      cx.count("pools_sealed", 1);
+    }
+  }
+  cx.outcome(format!("t={}", t));
+}
+
 /// every associated-data length 0..=420 for two measurement lengths: nothing of it in the clear
 fn run_length_sweep(cx: &mut CaseCx, case: &Value) {
   let lo = case["lo"].as_u64().unwrap() as usize;
@@ -643,6 +780,36 @@ pub fn spec() -> PropSpec {
         },
         run: run_single_report_algebra,
         min_counts: &[("candidates", 2000), ("chain_replica_validated", 10)],
+      },
+      Check {
+        name: "client-usage-shapes",
+        rule: "the client's randomness obtained through 5 usage shapes of sample_local_randomness (fresh buffer; the same buffer a second and third time; a buffer pre-filled with 0xff; a buffer that held another measurement's randomness) x t in {2,3} x 3 (measurement, epoch): equal to a fresh client's, and a single report built from it never opens under a key computable from public values (the keys of reports whose randomness is all zero, all 0xff, the epoch itself)",
+        gen: |_| {
+          let mut v = vec![];
+          for t in [2u64, 3] {
+            for (m, e) in [(1usize, 1usize), (4, 0), (7, 2)] {
+              v.push(json!({"t": t, "m": m, "e": e}));
+            }
+          }
+          v
+        },
+        run: run_client_usage,
+        min_counts: &[("usage_shapes_sealed", 25), ("public_keys_tried", 12)],
+      },
+      Check {
+        name: "epoch-pooling",
+        rule: "one report of one measurement from each epoch of a family of NEIGHBOURING epochs (6 bases incl. invalid UTF-8 and binary counters; every single-bit flip, appended / prepended / dropped byte, case folding, lossy UTF-8, NFC/NFD, trimming, last byte + 1..3), t in {2,3}: every window of t consecutive epochs and the base epoch with every t-1 others - each epoch alone is below threshold, so the pooled shares must not recover anything that opens a payload",
+        gen: |_| {
+          let mut v = vec![];
+          for t in [2u64, 3] {
+            for b in 0..6u64 {
+              v.push(json!({"t": t, "b": b}));
+            }
+          }
+          v
+        },
+        run: run_epoch_pooling,
+        min_counts: &[("pools_sealed", 1000)],
       },
       Check {
         name: "cross-aggregation",
